@@ -345,12 +345,26 @@ fn probe(id: usize, r: &mut Rng, max: usize) -> String {
             arcs: sparse.arcs.iter().map(|(&(u, v), &w)| ((f(u), f(v)), w)).collect(),
         };
     }
+    if r.chance(0.35) && m0.n() >= 2 {
+        // ids 0..n-2 and then n: the last vertex's id equals the order, the
+        // first id that an order-sized buffer does not have
+        let n = m0.n();
+        let f = |v: usize| if v == n - 1 { n } else { v };
+        sparse = Model {
+            verts: m0.verts.iter().map(|&v| f(v)).collect(),
+            arcs: m0.arcs.iter().map(|(&(u, v), &w)| ((f(u), f(v)), w)).collect(),
+        };
+    }
     let mut id = id;
     // traversals
     if id < TRAV.len() * nv {
         let (t, v) = (id / nv, id % nv);
         let m = if v == 2 { &sparse } else { &m0 };
-        let s = srcs(r, m);
+        let mut s = srcs(r, m);
+        if r.chance(0.3) {
+            // every vertex a source: every arc gets explored
+            s = m.vert_list();
+        }
         let tgt = arg(r, m);
         on_variant!(v, m, d => traverse(&d, t, &s, tgt));
         return format!("{} on {} sources={s:?} D: {}", TRAV[t], VARIANTS[v], m.describe());
